@@ -6,6 +6,8 @@ CONSTANTS
   Truncate = TRUE
   NoDrain = FALSE
   StaleRemaining = FALSE
+  MinBuf = 4
+  SaturatedSkipsParse = FALSE
   EofIgnoresRest = TRUE
 INVARIANTS P_C01 P_C12 P_C19
 VIEW view
